@@ -163,6 +163,7 @@ let run_pair line =
              | EMark c -> emit (match int_of_nat c with 0 -> "hT" | 1 -> "hG" | _ -> "hE")
              | EUpdated -> emit "u"
              | EOpen -> emit "o"
+             | EClose -> emit "e"
              | EStuck -> emit "!stuck"
              | EAns _ -> ()) in
       let hooks : (int * hook) list ref = ref [] in
